@@ -163,6 +163,9 @@ inductive Op where
   | delHead (f : FUid) (h : HUid)
   /-- `for head in heads.values(): _remove_head_from_event_matching_structures(...)` then `heads.clear()` -/
   | dropHeads (f : FUid)
+  /-- a single direct `_remove_head_from_event_matching_structures(state, flow_state, head)` that is NOT part
+      of a complete `dropHeads` group (the replay uses it when the recorded pattern is incomplete). -/
+  | rmHead (f : FUid) (h : HUid)
   /-- bare `heads.clear()` (no explicit removal) — never executed by the shipped code; what a faulty
       `_finish_flow` would do. Present so that the replay can express it and the guard can reject it. -/
   | clearHeads (f : FUid)
@@ -212,6 +215,7 @@ def step (s : IState) : Op → IState
     | some i =>
       let s1 := i.heads.foldl (fun acc hd => rawRemove acc (f, hd.uid)) s
       modifyInst s1 f fun i => { i with heads := [] }
+  | .rmHead f h => rawRemove s (f, h)
   | .clearHeads f =>
     modifyInst s f fun i => { i with heads := [] }
   | .mainRestart f h nm0 =>
@@ -224,6 +228,24 @@ def step (s : IState) : Op → IState
     modifyInst s f fun i => { i with status := st }
   | .removeInst f =>
     { s with insts := s.insts.filter (·.uid ≠ f) }
+
+/-! ### Pointwise form of the specification (used by guards and invariants) -/
+
+/-- pointwise form of the scan inside one instance -/
+def Inst.want (i : Inst) (h : HUid) : Option String :=
+  if i.status.listening then
+    match i.findHead h with
+    | none => none
+    | some hd => if hd.status ≠ .inactive then hd.elem else none
+  else none
+
+/-- pointwise form of the scan: the name under which head `k` should be registered -/
+def want (s : IState) (k : Key) : Option String :=
+  match findInst s k.1 with
+  | none => none
+  | some i => i.want k.2
+
+def instStatus (s : IState) (f : FUid) : Option FlowStatus := (findInst s f).map (·.status)
 
 /-! ### Guards: the side conditions under which an operation keeps the index exact.
     Each one is a fact about the Python code at the place where the operation occurs; the replay
@@ -242,6 +264,7 @@ def Op.guard (s : IState) : Op → Bool
     | some i => !(i.headUids.contains h') && (p != 0 || nm0.isNone)
   | .delHead f h => (reg s (f, h)).isNone
   | .dropHeads _ => true
+  | .rmHead f h => (want s (f, h)).isNone
   | .clearHeads f =>
     match findInst s f with
     | none => true
@@ -280,22 +303,6 @@ def scan (s : IState) : List (String × Key) :=
 /-- the index as a list of `(event name, key)` entries in dict / list order -/
 def entries (s : IState) : List (String × Key) :=
   s.index.flatMap fun e => e.2.map fun k => (e.1, k)
-
-/-- pointwise form of the scan inside one instance -/
-def Inst.want (i : Inst) (h : HUid) : Option String :=
-  if i.status.listening then
-    match i.findHead h with
-    | none => none
-    | some hd => if hd.status ≠ .inactive then hd.elem else none
-  else none
-
-/-- pointwise form of the scan: the name under which head `k` should be registered -/
-def want (s : IState) (k : Key) : Option String :=
-  match findInst s k.1 with
-  | none => none
-  | some i => i.want k.2
-
-def instStatus (s : IState) (f : FUid) : Option FlowStatus := (findInst s f).map (·.status)
 
 /-! ### Invariants (conjunction of small named predicates, DESIGN §5.2) -/
 
